@@ -49,15 +49,26 @@ def native_build():
     d = os.path.join(VERIF, 'replay')
     if not os.path.isdir(d):
         return None, 'no replay crate'
-    env = dict(os.environ, CARGO_NET_OFFLINE='true', CARGO_TARGET_DIR=os.path.join(VERIF, 'target', 'replay'), VERIF_REPO=REPO)
-    # the crate path-depends on /repo; a different VERIF_REPO is handled through a config override
-    cmd = ['cargo', 'build', '--offline', '--release', '--quiet']
+    tdir = os.path.join(VERIF, 'target', 'replay')
     if REPO != '/repo':
-        cmd += ['--config', 'patch.crates-io.scratchstack-aws-signature.path="%s"' % REPO]
+        # developer runs against a scratch copy of the repository: the crate path-depends on /repo, so a copy of the crate whose
+        # dependency path is rewritten is built instead (own target directory; registered commands always use /repo)
+        import shutil
+        d2 = os.path.join(VERIF, 'build', 'replay_alt')
+        os.makedirs(os.path.join(d2, 'src'), exist_ok=True)
+        shutil.copy(os.path.join(d, 'src', 'main.rs'), os.path.join(d2, 'src', 'main.rs'))
+        shutil.copy(os.path.join(d, 'Cargo.lock'), os.path.join(d2, 'Cargo.lock'))
+        toml = open(os.path.join(d, 'Cargo.toml')).read().replace('path = "/repo"', 'path = "%s"' % REPO)
+        if not os.path.exists(os.path.join(d2, 'Cargo.toml')) or open(os.path.join(d2, 'Cargo.toml')).read() != toml:
+            open(os.path.join(d2, 'Cargo.toml'), 'w').write(toml)
+        d = d2
+        tdir = os.path.join(VERIF, 'target', 'replay_alt')
+    env = dict(os.environ, CARGO_NET_OFFLINE='true', CARGO_TARGET_DIR=tdir, VERIF_REPO=REPO)
+    cmd = ['cargo', 'build', '--offline', '--release', '--quiet']
     p = subprocess.run(cmd, cwd=d, env=env, stdout=subprocess.PIPE, stderr=subprocess.PIPE, text=True)
     if p.returncode != 0:
         return None, 'native build failed: ' + p.stderr[-1500:]
-    return os.path.join(VERIF, 'target', 'replay', 'release', 'verif-replay'), None
+    return os.path.join(tdir, 'release', 'verif-replay'), None
 
 
 def native_run(args, timeout=120):
@@ -101,14 +112,15 @@ def run_extras(pid, tier):
         for f in sc['shared_mutable_state'] + sc['unexpected_lazy_statics']:
             rep['violations'].append(dict(obligation='C18.no_shared_mutable_state', kind='structural-scan', function=None, message='shared mutable state: ' + f,
                                           clause=None, repo_site=None, properties=['C18'], verifier_output='tools/scan_state.py: ' + f))
-    if pid in ('C12', 'C15', 'C05'):
-        # standing bounded stand-in for the functions that are NOT under contract (get_content_type_and_charset, trim_ascii, IntoRequestBytes impls, VecSignedHeaderRequirements::add_*/remove_*)
+    if pid in ('C12', 'C15', 'C05', 'C16'):
+        # standing bounded checks of the compiled get_content_type_and_charset, trim_ascii, IntoRequestBytes impls, VecSignedHeaderRequirements::add_*/remove_*: these are
+        # under contract by now, but through outlined iterator idioms / declared desugarings; the compiled originals are compared with the same specs, bounded
         st = native_run(['standing', pid], timeout=120)
         rep['standing_bounded'] = st
         if st and st.get('found'):
             d0 = st['disagreements'][0]
             rep['violations'].append(dict(obligation='bounded.' + d0['search'], kind='bounded-native-disagreement', function=d0['disagreement'].get('fn'),
-                                          message='bounded check of a function not under contract: ' + json.dumps(d0['disagreement'])[:300], clause=None, repo_site=None,
+                                          message='bounded check of the compiled function against its spec: ' + json.dumps(d0['disagreement'])[:300], clause=None, repo_site=None,
                                           properties=[pid], verifier_output=json.dumps(d0['disagreement'])))
             rep['failing_input'] = st
         if st:
